@@ -1,5 +1,7 @@
 import AcraModel.KeystoreSec.ExportLemmas
 import AcraModel.Crypto.Box
+import AcraModel.KeystoreSec.Der
+import AcraModel.Generated.KeystoreSec
 /-!
 # C18 — exported keys import to an identical keystore and stay confidential in transit
 
@@ -8,6 +10,37 @@ Property theorems only; the model is `KeystoreSec/Export.lean` (v2 key store: `e
 -/
 namespace AcraModel.Props.C18
 open AcraModel AcraModel.KeystoreSec AcraModel.KeystoreSec.Export
+
+/-! ## facts the model needs from the source (regenerated on every run) -/
+open Generated.KeystoreSec in
+/-- The bundle is produced by: marshal the rings, encrypt *those bytes* with the access encryptor,
+sign the container; and opened by: verify, decrypt, unmarshal – in this order. `copyKey` admits
+destroyed keys (repair 03). Every `ZeroizeBytes` of the v1 `KeyBackuper.Export` is deferred, i.e. runs
+after the keys were serialised and encrypted (repair 04). -/
+theorem fact_bundle_pipeline :
+    encryptAndSignCalls = ["keysData.Marshal", "cryptosuite.KeyEncryptor.Encrypt", "signature.NewNotary", "notary.Sign"] ∧
+    encryptAndSignEncryptArg = ["keysBytes"] ∧
+    decryptAndVerifyCalls = ["notary.Verify", "cryptosuite.KeyEncryptor.Decrypt", "asn1.UnmarshalEncryptedKeys"] ∧
+    importASN1Calls = ["r.copyKey", "r.pushTX", "r.store.syncKeyRing", "r.popTX"] ∧
+    copyKeyCalls = ["other.ValidSince.After", "r.addKeyData"] ∧ copyKeyAdmitsDestroyed = true ∧
+    v1ExportZeroize = List.replicate 6 "defer:utils.ZeroizeBytes" := by decide
+
+open Generated.KeystoreSec Path in
+/-- The context strings and constants of the model are the ones in the source. -/
+theorem fact_contexts :
+    exportCtx = ofStr exportKeyContext ∧
+    ksCtx [] = ofStr (keyStoreContextLits.headD "") ∧
+    sigCtx [] = ofStr (keyStoreContextLits.headD "" ++ keyRingSignatureContextLits.headD "") ∧
+    keyRingContextLits = ["key ring ", ": ", "key ring ", ": "] ∧
+    privateKeyContextLits = ["private key %d"] ∧ symmetricKeyContextLits = ["symmetric key %d"] ∧
+    privCtx (ofStr "p") 7 = ofStr "AKSv2 keystore: key ring p: private key 7" ∧
+    symCtx (ofStr "p") (-12) = ofStr "AKSv2 keystore: key ring p: symmetric key -12" ∧
+    signSeparator = ": " ∧ signWrites = ["context", "separator", "data"] ∧
+    Notary.sha256OID = sha256OID ∧
+    (fmtPair : Int) = asnThemisKeyPairFormat ∧ (fmtSym : Int) = asnThemisSymmetricKeyFormat ∧
+    (stDestroyed : Int) = asnKeyDestroyed ∧
+    Der.typeKeyRing = asnTypeKeyRing ∧ Der.typeEncryptedKeys = asnTypeEncryptedKeys ∧ Der.keyRingVersion2 = asnKeyRingVersion2 := by
+  refine ⟨by rfl, by rfl, by rfl, by decide, by decide, by decide, by rfl, by rfl, by decide, by decide, by decide, by decide, by decide, by decide, by decide, by decide, by decide⟩
 
 /-- **Export ∘ import = identity.** For every source store, selection of ring paths and access
 keys: if the export (with private data) succeeds and every exported key is importable (what
